@@ -41,6 +41,8 @@ pub enum COp {
     ApplyQuant(u8, BinOp, u16, u16, u32),
     CloneDrop(u16),
     Gc,
+    /// compute a result and drop it at once (garbage for the collector)
+    Churn(BinOp, u16, u16),
 }
 
 #[derive(Clone, Debug, Serialize, Deserialize)]
@@ -52,22 +54,28 @@ pub struct Scen {
     pub workers: u32,
     pub split: Option<u32>,
     pub cache: usize,
+    /// 0: practically unbounded store. p > 0: the concurrent run uses a store of
+    /// max(128, live * (105 + p) / 100) nodes, where live is the number of nodes the bases and
+    /// all results need, so that the background collector runs alongside; operations may then
+    /// fail with OutOfMemory, which makes the dependent results unavailable (not compared).
+    #[serde(default)]
+    pub tight: u8,
 }
 
-fn build_base<K: BoolKind>(mr: &MRef<K>, vs: &[K::F], n: u32, b: &Base) -> K::F {
+fn build_base<K: BoolKind>(mr: &MRef<K>, vs: &[K::F], n: u32, b: &Base) -> Option<K::F> {
     let h = (n / 2) as usize;
     let (ff, tt) = mr.with_manager_shared(|m| (K::F::f(m), K::F::t(m)));
-    match b {
-        Base::Var(v) => vs[(*v as usize * n as usize) >> 16].clone(),
+    Some(match b {
+        Base::Var(v) => return Some(vs[(*v as usize * n as usize) >> 16].clone()),
         Base::Carry(k) => {
             let k = (*k as usize % h).max(1);
             let mut c = ff.clone();
             for i in 0..k {
                 let (a, b) = (&vs[i], &vs[i + h]);
                 // carry' = a&b | c&(a^b)
-                let ab = a.and(b).unwrap();
-                let x = a.xor(b).unwrap();
-                c = ab.or(&c.and(&x).unwrap()).unwrap();
+                let ab = a.and(b).ok()?;
+                let x = a.xor(b).ok()?;
+                c = ab.or(&c.and(&x).ok()?).ok()?;
             }
             c
         }
@@ -77,9 +85,9 @@ fn build_base<K: BoolKind>(mr: &MRef<K>, vs: &[K::F], n: u32, b: &Base) -> K::F 
             let mut eq = tt.clone();
             for i in (0..h).rev() {
                 let (a, b) = (&vs[i], &vs[i + h]);
-                let this_lt = a.not().unwrap().and(b).unwrap();
-                lt = lt.or(&eq.and(&this_lt).unwrap()).unwrap();
-                eq = eq.and(&a.equiv(b).unwrap()).unwrap();
+                let this_lt = a.not().ok()?.and(b).ok()?;
+                lt = lt.or(&eq.and(&this_lt).ok()?).ok()?;
+                eq = eq.and(&a.equiv(b).ok()?).ok()?;
             }
             lt
         }
@@ -91,10 +99,10 @@ fn build_base<K: BoolKind>(mr: &MRef<K>, vs: &[K::F], n: u32, b: &Base) -> K::F 
                 for _ in 0..(*width % 5 + 2) {
                     s = mix(s);
                     let v = (s % n as u64) as usize;
-                    let lit = if (s >> 20) & 1 == 1 { vs[v].clone() } else { vs[v].not().unwrap() };
-                    cube = cube.and(&lit).unwrap();
+                    let lit = if (s >> 20) & 1 == 1 { vs[v].clone() } else { vs[v].not().ok()? };
+                    cube = cube.and(&lit).ok()?;
                 }
-                acc = acc.or(&cube).unwrap();
+                acc = acc.or(&cube).ok()?;
             }
             acc
         }
@@ -102,12 +110,12 @@ fn build_base<K: BoolKind>(mr: &MRef<K>, vs: &[K::F], n: u32, b: &Base) -> K::F 
             let mut acc = ff.clone();
             for v in 0..n {
                 if (mask >> (v % 32)) & 1 == 1 {
-                    acc = acc.xor(&vs[v as usize]).unwrap();
+                    acc = acc.xor(&vs[v as usize]).ok()?;
                 }
             }
             acc
         }
-    }
+    })
 }
 
 #[inline]
@@ -127,45 +135,66 @@ fn varset<K: BoolKind>(mr: &MRef<K>, vs: &[K::F], n: u32, mask: u32) -> K::F {
     acc
 }
 
-/// run one script; operands come from bases ++ own results; returns the results in order
-fn run_script<K: BoolKind>(mr: &MRef<K>, vs: &[K::F], n: u32, bases: &[K::F], script: &[COp]) -> Vec<K::F> {
-    let mut own: Vec<K::F> = vec![];
+/// run one script; operands come from bases ++ own results; returns the results in order.
+/// `None` = the operation (or one of its operands) failed with OutOfMemory.
+fn run_script<K: BoolKind>(mr: &MRef<K>, vs: &[K::F], n: u32, bases: &[K::F], script: &[COp]) -> Vec<Option<K::F>> {
+    let mut own: Vec<Option<K::F>> = vec![];
     for op in script {
         let pool_len = bases.len() + own.len();
-        let get = |i: u16, own: &Vec<K::F>| -> K::F {
+        let get = |i: u16, own: &Vec<Option<K::F>>| -> Option<K::F> {
             let k = sel(i, pool_len);
-            if k < bases.len() { bases[k].clone() } else { own[k - bases.len()].clone() }
+            if k < bases.len() { Some(bases[k].clone()) } else { own[k - bases.len()].clone() }
         };
         match op {
             COp::Bin(o, a, b) => {
-                let r = apply_op(*o, &get(*a, &own), &get(*b, &own));
+                let r = match (get(*a, &own), get(*b, &own)) {
+                    (Some(a), Some(b)) => try_apply_op(*o, &a, &b),
+                    _ => None,
+                };
                 own.push(r);
             }
+            COp::Churn(o, a, b) => {
+                if let (Some(a), Some(b)) = (get(*a, &own), get(*b, &own)) {
+                    drop(try_apply_op(*o, &a, &b));
+                }
+            }
             COp::Ite(a, b, c) => {
-                let r = get(*a, &own).ite(&get(*b, &own), &get(*c, &own)).unwrap();
+                let r = match (get(*a, &own), get(*b, &own), get(*c, &own)) {
+                    (Some(a), Some(b), Some(c)) => a.ite(&b, &c).ok(),
+                    _ => None,
+                };
                 own.push(r);
             }
             COp::Not(a) => {
-                let r = get(*a, &own).not().unwrap();
+                let r = get(*a, &own).and_then(|a| a.not().ok());
                 own.push(r);
             }
             COp::Quant(q, a, mask) => {
-                let set = varset::<K>(mr, vs, n, *mask);
-                if let Some(r) = K::quant(*q % 3, &get(*a, &own), &set) {
-                    own.push(r.unwrap());
+                if K::KIND == BKind::Zbdd {
+                    continue;
                 }
+                let r = match (try_varset::<K>(mr, vs, n, *mask), get(*a, &own)) {
+                    (Some(set), Some(a)) => K::quant(*q % 3, &a, &set).and_then(|r| r.ok()),
+                    _ => None,
+                };
+                own.push(r);
             }
             COp::ApplyQuant(q, o, a, b, mask) => {
-                let set = varset::<K>(mr, vs, n, *mask);
-                if let Some(r) = K::apply_quant(*q % 3, bool_operator(*o), &get(*a, &own), &get(*b, &own), &set) {
-                    own.push(r.unwrap());
+                if K::KIND == BKind::Zbdd {
+                    continue;
                 }
+                let r = match (try_varset::<K>(mr, vs, n, *mask), get(*a, &own), get(*b, &own)) {
+                    (Some(set), Some(a), Some(b)) => K::apply_quant(*q % 3, bool_operator(*o), &a, &b, &set).and_then(|r| r.ok()),
+                    _ => None,
+                };
+                own.push(r);
             }
             COp::CloneDrop(a) => {
-                let x = get(*a, &own);
-                let y = x.clone();
-                drop(x);
-                drop(y);
+                if let Some(x) = get(*a, &own) {
+                    let y = x.clone();
+                    drop(x);
+                    drop(y);
+                }
             }
             COp::Gc => {
                 K::gc(mr);
@@ -175,6 +204,32 @@ fn run_script<K: BoolKind>(mr: &MRef<K>, vs: &[K::F], n: u32, bases: &[K::F], sc
     own
 }
 
+fn try_apply_op<F: BooleanFunction>(o: BinOp, a: &F, b: &F) -> Option<F> {
+    match o {
+        BinOp::And => a.and(b),
+        BinOp::Or => a.or(b),
+        BinOp::Xor => a.xor(b),
+        BinOp::Equiv => a.equiv(b),
+        BinOp::Nand => a.nand(b),
+        BinOp::Nor => a.nor(b),
+        BinOp::Imp => a.imp(b),
+        BinOp::ImpStrict => a.imp_strict(b),
+    }
+    .ok()
+}
+
+fn try_varset<K: BoolKind>(mr: &MRef<K>, vs: &[K::F], n: u32, mask: u32) -> Option<K::F> {
+    let mut acc = mr.with_manager_shared(|m| K::F::t(m));
+    let mut cnt = 0;
+    for v in 0..n {
+        if (mask >> v) & 1 == 1 && cnt < 3 {
+            acc = acc.and(&vs[v as usize]).ok()?;
+            cnt += 1;
+        }
+    }
+    Some(acc)
+}
+
 #[derive(Default, Serialize, Deserialize, Debug)]
 pub struct CStat {
     pub results: u64,
@@ -182,27 +237,61 @@ pub struct CStat {
     pub shared_results: u64,
     pub threads: usize,
     pub gcs: u64,
+    #[serde(default)]
+    pub oom_results: u64,
+    /// gc_count delta: explicit and background collections that actually ran
+    #[serde(default)]
+    pub collections: u64,
+    #[serde(default)]
+    pub tight: bool,
 }
 
-fn setup<K: BoolKind>(s: &Scen, workers: u32) -> (MRef<K>, Vec<K::F>, Vec<K::F>) {
+fn setup<K: BoolKind>(s: &Scen, workers: u32, cap: usize) -> Result<(MRef<K>, Vec<K::F>, Vec<K::F>), String> {
     let order = order_from_keys(s.n, &s.order_keys);
-    let mr = mk_manager::<K>(s.n, &order, 1 << 21, s.cache, workers);
+    let mr = mk_manager::<K>(s.n, &order, cap, s.cache, workers);
     let vs = vars::<K>(&mr, s.n);
-    let bases: Vec<K::F> = s.bases.iter().map(|b| build_base::<K>(&mr, &vs, s.n, b)).collect();
-    (mr, vs, bases)
+    let mut bases: Vec<K::F> = vec![];
+    for b in &s.bases {
+        let f = match build_base::<K>(&mr, &vs, s.n, b) {
+            Some(f) => f,
+            None => {
+                // tight store: collect the temporaries of the previous constructions and retry
+                K::gc(&mr);
+                build_base::<K>(&mr, &vs, s.n, b).ok_or_else(|| "harness: base functions do not fit into the tight store".to_string())?
+            }
+        };
+        bases.push(f);
+        if cap < (1 << 21) {
+            K::gc(&mr);
+        }
+    }
+    Ok((mr, vs, bases))
 }
 
 /// the whole scenario, executed inside a forked child
 pub fn run_scen<K: BoolKind>(s: &Scen) -> Result<CStat, String> {
     // sequential reference: one application thread, one worker
-    let (mr0, vs0, bases0) = setup::<K>(s, 1);
-    let expected: Vec<Vec<u64>> = s.scripts.iter().map(|sc| run_script::<K>(&mr0, &vs0, s.n, &bases0, sc).iter().map(|f| K::shash(f)).collect()).collect();
+    let (mr0, vs0, bases0) = setup::<K>(s, 1, 1 << 21)?;
+    let seq: Vec<Vec<Option<K::F>>> = s.scripts.iter().map(|sc| run_script::<K>(&mr0, &vs0, s.n, &bases0, sc)).collect();
+    if seq.iter().flatten().any(|r| r.is_none()) {
+        return Err("harness: sequential reference ran out of memory".into());
+    }
+    let expected: Vec<Vec<u64>> = seq.iter().map(|rs| rs.iter().map(|f| K::shash(f.as_ref().unwrap())).collect()).collect();
     let base_hashes: Vec<u64> = bases0.iter().map(|f| K::shash(f)).collect();
+    let cap = if s.tight == 0 {
+        1 << 21
+    } else {
+        K::gc(&mr0);
+        let live = K::num_inner_nodes(&mr0);
+        (live * (105 + s.tight as usize) / 100).max(128)
+    };
+    drop(seq);
     drop((vs0, bases0));
     drop(mr0);
 
-    let (mr, vs, bases) = setup::<K>(s, s.workers);
+    let (mr, vs, bases) = setup::<K>(s, s.workers, cap)?;
     K::set_split_depth(&mr, s.split);
+    let gc0 = K::gc_count(&mr);
     for (i, b) in bases.iter().enumerate() {
         if K::shash(b) != base_hashes[i] {
             return Err(format!("parallel-differs: base function {i} ({:?}) built on a manager with {} workers differs structurally from the 1-worker manager", s.bases[i], s.workers));
@@ -212,7 +301,7 @@ pub fn run_scen<K: BoolKind>(s: &Scen) -> Result<CStat, String> {
     st.threads = s.scripts.len();
     let bases = Arc::new(bases);
     let vs = Arc::new(vs);
-    let results: Vec<Vec<K::F>> = if s.scripts.len() == 1 {
+    let results: Vec<Vec<Option<K::F>>> = if s.scripts.len() == 1 {
         vec![run_script::<K>(&mr, &vs, s.n, &bases, &s.scripts[0])]
     } else {
         let handles: Vec<_> = s
@@ -244,6 +333,13 @@ pub fn run_scen<K: BoolKind>(s: &Scen) -> Result<CStat, String> {
             return Err(format!("result-count: thread {t} produced {} results, sequential run {}", rs.len(), expected[t].len()));
         }
         for (i, f) in rs.iter().enumerate() {
+            let Some(f) = f else {
+                if s.tight == 0 {
+                    return Err(format!("spurious-oom: result {i} of thread {t} ({:?}) is OutOfMemory in a store of 2^21 nodes", s.scripts[t].get(i)));
+                }
+                st.oom_results += 1;
+                continue;
+            };
             st.results += 1;
             let h = K::shash(f);
             if h != expected[t][i] {
@@ -253,7 +349,7 @@ pub fn run_scen<K: BoolKind>(s: &Scen) -> Result<CStat, String> {
             st.max_nodes = st.max_nodes.max(f.node_count());
             // equal functions obtained by different threads are the same handle
             if let Some(&(t2, i2)) = by_hash.get(&h) {
-                if results[t2][i2] != *f {
+                if results[t2][i2].as_ref() != Some(f) {
                     return Err(format!("noncanonical: thread {t2} result {i2} and thread {t} result {i} denote the same function but are different handles"));
                 }
                 if t2 != t {
@@ -267,8 +363,10 @@ pub fn run_scen<K: BoolKind>(s: &Scen) -> Result<CStat, String> {
     // quiescent: well-formed diagram with exact reference counts
     let mut handles: Vec<&K::F> = bases.iter().chain(vs.iter()).collect();
     for rs in &results {
-        handles.extend(rs.iter());
+        handles.extend(rs.iter().flatten());
     }
+    st.collections = K::gc_count(&mr) - gc0;
+    st.tight = s.tight > 0;
     K::audit(&mr, &handles, true).map_err(|e| format!("audit-after-concurrent-run: {e}"))?;
     st.gcs = s.scripts.iter().flatten().filter(|o| matches!(o, COp::Gc)).count() as u64;
     Ok(st)
@@ -288,6 +386,7 @@ fn cop_strategy(hot: bool) -> impl Strategy<Value = COp> {
         5 => (0u8..3, binop(), s(), s(), any::<u32>()).prop_map(|(q, o, a, b, m)| COp::ApplyQuant(q, o, a, b, m)),
         6 => s().prop_map(COp::CloneDrop),
         if hot { 4 } else { 1 } => Just(COp::Gc),
+        if hot { 6 } else { 1 } => (binop(), s(), s()).prop_map(|(o, a, b)| COp::Churn(o, a, b)),
     ]
 }
 
@@ -304,13 +403,26 @@ fn base_strategy() -> impl Strategy<Value = Base> {
 /// layer 1: one application thread, big operands, many workers
 fn par_strategy() -> impl Strategy<Value = Scen> {
     (12u32..=20, proptest::collection::vec(any::<u16>(), 20), proptest::collection::vec(base_strategy(), 3..7), proptest::collection::vec(cop_strategy(false), 4..14), proptest::sample::select(vec![2u32, 4, 8, 16]), proptest::sample::select(vec![Some(1u32), Some(3), Some(20), None]), proptest::sample::select(vec![1usize << 4, 1 << 12, 1 << 16]))
-        .prop_map(|(n, order_keys, bases, script, workers, split, cache)| Scen { n, order_keys, bases, scripts: vec![script], workers, split, cache })
+        .prop_map(|(n, order_keys, bases, script, workers, split, cache)| Scen { n, order_keys, bases, scripts: vec![script], workers, split, cache, tight: 0 })
 }
 
 /// layer 2: 2..16 application threads, small hot diagrams
 fn conc_strategy() -> impl Strategy<Value = Scen> {
     (4u32..=12, proptest::collection::vec(any::<u16>(), 20), proptest::collection::vec(base_strategy(), 2..6), proptest::collection::vec(proptest::collection::vec(cop_strategy(true), 3..25), 2..=16), proptest::sample::select(vec![1u32, 2, 4]), proptest::sample::select(vec![Some(0u32), Some(2), None]), proptest::sample::select(vec![1usize, 16, 1 << 10]))
-        .prop_map(|(n, order_keys, bases, scripts, workers, split, cache)| Scen { n, order_keys, bases, scripts, workers, split, cache })
+        .prop_map(|(n, order_keys, bases, scripts, workers, split, cache)| Scen { n, order_keys, bases, scripts, workers, split, cache, tight: 0 })
+}
+
+/// layer 2b: like layer 2 on 8..12 variables with longer scripts in a store that is only
+/// 6..60 % larger than what the live functions need: the background collector runs alongside
+fn tight_strategy() -> impl Strategy<Value = Scen> {
+    (8u32..=12, proptest::collection::vec(any::<u16>(), 20), proptest::collection::vec(base_strategy(), 3..6), proptest::collection::vec(proptest::collection::vec(cop_strategy(true), 20..60), 2..=6), proptest::sample::select(vec![1u32, 2, 4]), proptest::sample::select(vec![Some(0u32), Some(2), None]), proptest::sample::select(vec![16usize, 1 << 10]), 1u8..=55)
+        .prop_map(|(n, order_keys, bases, mut scripts, workers, split, cache, tight)| {
+            if tight % 4 != 0 {
+                // no explicit gc(): every collection that runs is a background one
+                scripts.iter_mut().for_each(|s| s.retain(|o| !matches!(o, COp::Gc)));
+            }
+            Scen { n, order_keys, bases, scripts, workers, split, cache, tight }
+        })
 }
 
 fn scen_isolated<K: BoolKind>(s: &Scen) -> Result<CStat, String> {
@@ -333,40 +445,69 @@ fn scen_isolated<K: BoolKind>(s: &Scen) -> Result<CStat, String> {
 }
 
 fn campaign<K: BoolKind>(seed: u64, cases: u32, layer: u8, rep: &mut Report) {
+    let lname = match layer {
+        1 => "1",
+        2 => "2",
+        _ => "2b",
+    };
     let mut nt = 0u64;
     let mut evals = 0u64;
     let mut samples = vec![];
     let mut timeouts: Vec<String> = vec![];
     let mut agg: std::collections::BTreeMap<String, u64> = Default::default();
     let test = |s: &Scen| match scen_isolated::<K>(s) {
+        Err(m) if m.starts_with("harness") => Ok(CStat { threads: usize::MAX - 1, ..Default::default() }),
         Err(m) if m.starts_with("timeout") => Ok(CStat { threads: usize::MAX, ..Default::default() }),
         r => r,
     };
     let mut after = |s: &Scen, r: &Result<CStat, String>| {
         if let Ok(st) = r {
+            if st.threads == usize::MAX - 1 {
+                *agg.entry(format!("{}.layer{lname}.skipped_store_too_tight_for_setup", K::NAME)).or_insert(0) += 1;
+                return;
+            }
             if st.threads == usize::MAX {
                 timeouts.push(format!("{} layer {layer}: watchdog expired for a scenario with {} threads", K::NAME, s.scripts.len()));
                 return;
             }
             evals += st.results.max(1);
-            let nontrivial = if layer == 1 { st.max_nodes >= 200 } else { st.threads >= 2 && st.results >= 6 };
+            let nontrivial = match layer {
+                1 => st.max_nodes >= 200,
+                2 => st.threads >= 2 && st.results >= 6,
+                _ => st.threads >= 2 && st.results >= 6 && st.collections >= 2,
+            };
+            if layer == 3 {
+                *agg.entry(format!("{}.layer{lname}.collections_incl_background", K::NAME)).or_insert(0) += st.collections;
+                if st.gcs == 0 {
+                    *agg.entry(format!("{}.layer{lname}.background_collections_in_scenarios_without_explicit_gc", K::NAME)).or_insert(0) += st.collections;
+                    if st.collections >= 2 {
+                        *agg.entry(format!("{}.layer{lname}.scenarios_with_2plus_background_collections", K::NAME)).or_insert(0) += 1;
+                    }
+                }
+                *agg.entry(format!("{}.layer{lname}.oom_results", K::NAME)).or_insert(0) += st.oom_results;
+            }
             if nontrivial {
                 nt += 1;
                 if samples.len() < 1 {
                     samples.push(json!({"kind": K::NAME, "layer": layer, "scen": s}));
                 }
             }
-            *agg.entry(format!("{}.layer{layer}.results", K::NAME)).or_insert(0) += st.results;
-            *agg.entry(format!("{}.layer{layer}.results_shared_between_threads", K::NAME)).or_insert(0) += st.shared_results;
-            *agg.entry(format!("{}.layer{layer}.explicit_gcs", K::NAME)).or_insert(0) += st.gcs;
-            let e = agg.entry(format!("{}.layer{layer}.max_result_nodes", K::NAME)).or_insert(0);
+            *agg.entry(format!("{}.layer{lname}.results", K::NAME)).or_insert(0) += st.results;
+            *agg.entry(format!("{}.layer{lname}.results_shared_between_threads", K::NAME)).or_insert(0) += st.shared_results;
+            *agg.entry(format!("{}.layer{lname}.explicit_gcs", K::NAME)).or_insert(0) += st.gcs;
+            let e = agg.entry(format!("{}.layer{lname}.max_result_nodes", K::NAME)).or_insert(0);
             *e = (*e).max(st.max_nodes as u64);
         }
     };
-    let out = if layer == 1 { crate::pt::run2(seed, cases, &par_strategy(), |_| {}, &mut after, test) } else { crate::pt::run2(seed, cases, &conc_strategy(), |_| {}, &mut after, test) };
+    let out = match layer {
+        1 => crate::pt::run2(seed, cases, &par_strategy(), |_| {}, &mut after, test),
+        2 => crate::pt::run2(seed, cases, &conc_strategy(), |_| {}, &mut after, test),
+        _ => crate::pt::run2(seed, cases, &tight_strategy(), |_| {}, &mut after, test),
+    };
+    let layer_name = lname;
     rep.evaluations += evals;
     rep.nontrivial += nt;
-    rep.class_n(&format!("{}.layer{layer}.scenarios", K::NAME), out.cases);
+    rep.class_n(&format!("{}.layer{lname}.scenarios", K::NAME), out.cases);
     for (k, v) in agg {
         rep.class_n(&k, v);
     }
@@ -375,7 +516,7 @@ fn campaign<K: BoolKind>(seed: u64, cases: u32, layer: u8, rep: &mut Report) {
     }
     rep.inconclusive.extend(timeouts);
     if let Some((s, msg)) = out.failure {
-        rep.viol(format!("C07/{}/layer{layer}/{}", K::NAME, crate::hrun::category(&msg)), msg, json!({"kind": K::NAME, "layer": layer, "scen": s}));
+        rep.viol(format!("C07/{}/layer{layer_name}/{}", K::NAME, crate::hrun::category(&msg)), msg, json!({"kind": K::NAME, "layer": layer_name, "scen": s}));
     }
 }
 
@@ -429,6 +570,14 @@ pub fn run(cfg: &Cfg) -> i32 {
                     campaign::<$K>(s2, c2, 2, &mut rep);
                     rep.emit(w);
                 }));
+                let s3 = mix(cfg.seed ^ (0xc07_300 + $salt * 100 + sh as u64));
+                let c3 = cfg.t(250, 3000);
+                names.push(format!("layer2b/{}/{}", <$K>::NAME, sh));
+                jobs.push(Box::new(move |w: &mut dyn Write| {
+                    let mut rep = Report::default();
+                    campaign::<$K>(s3, c3, 3, &mut rep);
+                    rep.emit(w);
+                }));
             }
         };
     }
@@ -446,7 +595,7 @@ pub fn run(cfg: &Cfg) -> i32 {
         &total,
         Meta {
             level: "exploration",
-            rule: "layer 1 (parallel recursion): proptest scenarios with operands over 12..20 variables (adder carries, comparators, random DNFs, parities under random orders), one script of 4..14 operations (apply, ite, not, quantification, apply-quantify, gc) executed on a manager with 2/4/8/16 workers and split depth 1/3/20/auto and on a 1-worker manager: every result must have the same canonical structural hash (level, children, tags) as the sequential result. Layer 2 (free-running application threads): 2..16 OS threads each run a generated script on ONE manager (shared base functions, own results, clone/drop, explicit gc() on any thread, cache capacities 1/16/1024 to force contention); every thread's results must equal what a sequential execution of its script yields, equal functions obtained by different threads must be the same handle, and at the quiescent end the structure + reference-count audit must pass. Layer 3 (harness-owned schedules over instrumented yield points) is reported in the same evidence when built. Each scenario runs in a forked child; a watchdog expiry is reported as inconclusive (exit 2), never as a violation. Non-trivial = layer-1 scenario with a result of >= 200 nodes; layer-2 scenario with >= 2 threads and >= 6 results.",
+            rule: "layer 1 (parallel recursion): proptest scenarios with operands over 12..20 variables (adder carries, comparators, random DNFs, parities under random orders), one script of 4..14 operations (apply, ite, not, quantification, apply-quantify, gc) executed on a manager with 2/4/8/16 workers and split depth 1/3/20/auto and on a 1-worker manager: every result must have the same canonical structural hash (level, children, tags) as the sequential result. Layer 2 (free-running application threads): 2..16 OS threads each run a generated script on ONE manager (shared base functions, own results, clone/drop, explicit gc() on any thread, cache capacities 1/16/1024 to force contention); every thread's results must equal what a sequential execution of its script yields, equal functions obtained by different threads must be the same handle, and at the quiescent end the structure + reference-count audit must pass. Layer 2b: the same with 2..6 threads running 20..60 operations (incl. compute-and-drop churn) in a store only 6..60 % larger than the live functions need (capacity >= 128), so that the automatic background collector triggered by the high-water mark runs alongside the application threads, repeatedly; an operation may then fail with OutOfMemory (results depending on it are not compared), every other result must be the sequential one; non-trivial there additionally needs >= 2 collections that actually ran. Layer 3 (harness-owned schedules over instrumented yield points) is reported in the same evidence when built. Each scenario runs in a forked child; a watchdog expiry is reported as inconclusive (exit 2), never as a violation. Non-trivial = layer-1 scenario with a result of >= 200 nodes; layer-2 scenario with >= 2 threads and >= 6 results.",
             assumptions: vec!["free-running schedules are not reproducible exactly; the replay file stores the scenario".into(), "relaxed-memory effects are invisible on x86".into()],
             extra: json!({}),
         },
